@@ -1353,6 +1353,44 @@ func indexOf(l []string, x string) int {
 	return 0
 }
 
+// evbConcurrentSubscribe: several goroutines subscribe the SAME handler at the
+// same moment (both levels); "subscribing twice has no additional effect"
+// must hold for simultaneous calls too: the next publication reaches the
+// handler exactly once.
+func evbConcurrentSubscribe(r *h.Report, base int, n int) bool {
+	ops := []string{fmt.Sprintf("concurrent-subscribe %d: 16 goroutines subscribe one handler at the same time, then one publication", n)}
+	r.Eval("concurrent-subscribe", "")
+	for lvl := 0; lvl < 2; lvl++ {
+		w := newEvbWorld()
+		x := w.hs[evbKey{lvl, 1}]
+		start := make(chan struct{})
+		var wg sync.WaitGroup
+		for g := 0; g < 16; g++ {
+			wg.Add(1)
+			go func() {
+				defer wg.Done()
+				<-start
+				evbSub(x)
+			}()
+		}
+		close(start)
+		wg.Wait()
+		ski := fmt.Sprintf("%scs%d-%d", evbPrefix, n, lvl)
+		if !w.publish(ski) {
+			r.SpecFail("publish-blocked", ops, "Publish did not return")
+			return false
+		}
+		if !evbSettle(base) {
+			r.SpecFail("reentrant-handler-blocked", ops, "handlers did not finish")
+			return false
+		}
+		set := map[evbKey]bool{{lvl, 1}: true}
+		w.judge(r, ops, ski, set, set, set)
+		w.cleanup()
+	}
+	return true
+}
+
 // evbQueued (deterministic, no model): two goroutines publish at the same
 // time and a core handler of the first publication (un)subscribes — itself,
 // another core handler, an application handler — while the second publisher is
@@ -1740,7 +1778,7 @@ func evbSequential(r *h.Report) bool {
 		return false
 	}
 	rng := h.Rng(15)
-	hist := h.Scale(3000, 40000)
+	hist := h.Scale(2000, 40000)
 	for i := 0; i < hist; i++ {
 		if !evbRunHistory(r, d, evbGenHistory(rng, 20+rng.Intn(40)), base) {
 			return false
@@ -1800,9 +1838,9 @@ func evbSequential(r *h.Report) bool {
 // evbRounds: the concurrent rounds (monitor only).
 func evbRounds(r *h.Report, base int) bool {
 	rounds := h.Scale(4, 10)
-	n := h.Scale(1500, 4000)
+	n := h.Scale(1000, 4000)
 	if evbRaceEnabled {
-		n = h.Scale(600, 2000)
+		n = h.Scale(400, 2000)
 	}
 	for round := 0; round < rounds; round++ {
 		if !evbConcurrent(r, base, round, 8, n) {
@@ -1885,6 +1923,11 @@ func evbScenarios(r *h.Report, base int) bool {
 	r.Eval("scenarios", "")
 	for i := 0; i < h.Scale(5, 40); i++ {
 		if !evbHeldStack(r, base) {
+			return false
+		}
+	}
+	for i := 0; i < h.Scale(300, 2000); i++ {
+		if !evbConcurrentSubscribe(r, base, i) {
 			return false
 		}
 	}
